@@ -1126,14 +1126,18 @@ mzd_t *mzd_transpose(mzd_t *DST, mzd_t const *A) {
   if (A->nrows == 0 || A->ncols == 0)
     return mzd_copy(DST, A);
 
+  if (__M4RI_UNLIKELY(mzd_is_dangerous_window(A))) {
+    /* the kernels read whole words of A and rely on the bits beyond its last column being zero;
+       for a window they belong to the parent: transpose a masked copy instead */
+    mzd_t *Abar = mzd_copy(NULL, A);
+    DST         = mzd_transpose(DST, Abar);
+    mzd_free(Abar);
+    return DST;
+  }
+
   rci_t maxsize = MAX(A->nrows, A->ncols);
   if (__M4RI_LIKELY(!mzd_is_dangerous_window(DST))) {
     _mzd_transpose(DST->data, A->data, DST->rowstride, A->rowstride, A->nrows, A->ncols, maxsize);
-    if (__M4RI_UNLIKELY(mzd_is_dangerous_window(A)) && (DST->ncols % m4ri_radix)) {
-      /* the kernels read whole words of A: with A a window, bits of its parent beyond A's last
-         column end up beyond DST's last column, where a non-window must have zeroes */
-      for (rci_t i = 0; i < DST->nrows; ++i) mzd_row(DST, i)[DST->width - 1] &= DST->high_bitmask;
-    }
     return DST;
   }
   
